@@ -71,6 +71,34 @@ class Ctx:
     def violation(self, kind, detail, cases, obs=None, sig=None):
         self.violations.append(Violation(kind, detail, cases, obs, sig))
 
+    def selftest(self):
+        """Guards the machinery itself on every run, independently of /repo's code: the harness's toy cipher and the Lean
+        `Toy.enc/dec` answer the same known-answer questions; the unaltered answers must compare equal, and an answer with
+        one altered hex digit (a *sabotaged* observation) must be reported by the comparison.  If either fails, nothing this
+        run says can be believed, and that is reported as an infrastructure problem."""
+        rng = random.Random(f"selftest-{self.prop}-{self.seed}")
+        bs, w = rng.choice([(5, 5), (8, 3), (16, 2), (3, 2)])
+        key = bytes(rng.getrandbits(8) for _ in range(16))
+        blk = lambda: bytes(rng.getrandbits(8) for _ in range(bs))
+        c = Case("toy", "toy", bs, w, key, b"", ops=[f"E {hx(blk())}", f"D {hx(blk())}", f"E {hx(blk())}"])
+        res = execute([c], self.hbin)
+        clean = Ctx(self.prop, self.tier, self.seed, self.hbin)
+        clean.check_absolute([c], res)
+        h = res["H"][0]
+        ok = (not clean.violations) and h is not None and len(h) == 3 and all(l.startswith("out ") for l in h)
+        caught = False
+        if ok:
+            l = h[1]
+            res["H"][0] = [h[0], l[:-1] + ("0" if l[-1] != "0" else "1"), h[2]]
+            sab = Ctx(self.prop, self.tier, self.seed, self.hbin)
+            sab.check_absolute([c], res)
+            caught = any(v.kind == "predicate" for v in sab.violations)
+        self.stats["selftest:known_answers_agree"] = int(ok)
+        self.stats["selftest:sabotaged_line_reported"] = int(caught)
+        if not (ok and caught):
+            self.violation("infrastructure", "self-test failed: " + ("toy-cipher known answers of harness and model disagree or are missing"
+                           if not ok else "a sabotaged observation line was not reported by the comparison"), [c], {"H": h})
+
     # ---- evaluation helpers -------------------------------------------------------------------
     def check_absolute(self, cases, res, skip=("bufstate", "text"), sigfn=None, project=None):
         """per line: implementation vs spec (the property's predicate) and vs the impl-mirror model
